@@ -1,16 +1,7 @@
 (* Leaf lemmas about the clause tables and guards regenerated from telingo/theory/{formula,body}.py, and their reading
    as the per-state definitional equations of LTLf. *)
 Require Import GenPrelude TheoryPrelude FromTheory HT TEL.
-Definition evl (v : lvar -> bool) (l : slit) : bool := match l with P x => v x | N x => negb (v x) end.
-(* no constraint body is satisfied *)
-Definition holds (v : lvar -> bool) (cs : list (list slit)) : bool := forallb (fun c => negb (forallb (evl v) c)) cs.
-Definition tel_spec (op : telop) (has : bool) (lhs rhs pre : bool) : bool :=
-  match op with
-  | OpSince | OpUntil => rhs || ((if has then lhs else true) && pre)
-  | OpTrigger | OpRelease => rhs && ((if has then lhs else false) || pre)
-  end.
-Definition bool_spec (op : boolop) (lhs rhs : bool) : bool :=
-  match op with OpAnd => lhs && rhs | OpOr => lhs || rhs | OpLImp => lhs || negb rhs | OpRImp => negb lhs || rhs | OpEqv => Bool.eqb lhs rhs end.
+Require Export TheorySem.
 Lemma tel_clauses_spec op has v : holds v (tel_clauses_gen op has) = Bool.eqb (v Llit) (tel_spec op has (v Llhs) (v Lrhs) (v Lpre)).
 Proof. destruct op, has; unfold holds, tel_clauses_gen, tel_spec; cbn [forallb evl]; destruct (v Llit), (v Llhs), (v Lrhs), (v Lpre); reflexivity. Qed.
 Lemma boolean_clauses_spec op v : holds v (boolean_clauses_gen op) = Bool.eqb (v Llit) (bool_spec op (v Llhs) (v Lrhs)).
